@@ -521,9 +521,26 @@ def _check_inram(case, rebuilt):
     rec.md_lost = False  # state dumped into study_config.metadata again
     return True
 
+  def host_in_sync(op):
+    """The supporter holds exactly what the documented AddTrials / in-place
+    completion semantics say (ids are kept, an ACTIVE trial with the incoming
+    id is replaced, new trials are appended)."""
+    have = {R.token_of(t): (t.id, t.status.name) for t in sup.trials}
+    want = {k: (m['trial'].id, m['state']) for k, m in model.items()}
+    if have == want:
+      return True
+    out.violate('host/%s/supporter_state_after_%s' % (host, op[0]),
+                'after %r the supporter holds {token: (id, status)} %r; the '
+                'documented AddTrials semantics give %r' % (
+                    op, sorted(have.items()), sorted(want.items())))
+    return False
+
   alive = True
   for op in case['ops']:
     kind = op[0]
+    if kind != 'suggest' and not host_in_sync(['before'] + list(op)):
+      alive = False
+      break
     if kind == 'suggest':
       if not suggest(op[1]):
         alive = False
@@ -596,6 +613,9 @@ def _check_inram(case, rebuilt):
       rec.md_lost = True
       out.cls('lose_state', 'lose_' + op[1])
     flags.arm()
+    if kind != 'suggest' and not host_in_sync(op):
+      alive = False
+      break
   if alive:
     rec.force_exact = True
     if suggest(1):
